@@ -37,6 +37,8 @@ pub type Script = Arc<dyn Fn(usize, u64) -> Act + Send + Sync>;
 pub struct Shared {
     pub frames: Mutex<Vec<FrameRec>>,
     pub llr_stats: Mutex<LlrStats>,
+    /// the same statistics per decoder (decoders are numbered in build order: the first W belong to the first Eb/N0 point, ...)
+    pub llr_by_dec: Mutex<std::collections::HashMap<usize, LlrStats>>,
     pub built: AtomicUsize,
     pub dropped: AtomicUsize,
     pub total_frames: AtomicU64,
@@ -81,6 +83,15 @@ impl LlrStats {
             self.sum_lag1 += w[0].abs() * w[1].abs();
             self.n_lag1 += 1;
         }
+    }
+}
+
+impl LlrStats {
+    /// moments of several decoders together (positions / digests are not merged)
+    pub fn merged<'a>(parts: impl Iterator<Item = &'a LlrStats>) -> LlrStats {
+        let mut m = LlrStats::default();
+        for p in parts { m.n += p.n; m.sum_abs += p.sum_abs; m.sum_sq += p.sum_sq; m.sum_lag1 += p.sum_lag1; m.n_lag1 += p.n_lag1; m.sum += p.sum; m.frames += p.frames; }
+        m
     }
 }
 
@@ -146,6 +157,8 @@ impl LdpcDecoder for ScriptedDecoder {
             if !st.frame_digests.insert(d) { st.dup_frames += 1; }
             if st.frame_digests.len() > 300_000 { st.frame_digests.clear(); }
             st.decoders.insert(self.id);
+            drop(st);
+            self.shared.llr_by_dec.lock().unwrap().entry(self.id).or_default().add_frame(llrs, true);
         }
         let (word, ok, iters, name, flips) = match &act {
             Act::Good { iters } => (hard.clone(), true, *iters, "good", 0),
@@ -188,7 +201,7 @@ impl ScriptedDecoder {
 }
 
 pub fn shared(k: usize, keep_frames: usize, delay_us: u64, collect_llrs: bool) -> Arc<Shared> {
-    Arc::new(Shared { frames: Mutex::new(vec![]), llr_stats: Mutex::new(LlrStats::default()), built: AtomicUsize::new(0), dropped: AtomicUsize::new(0),
+    Arc::new(Shared { frames: Mutex::new(vec![]), llr_stats: Mutex::new(LlrStats::default()), llr_by_dec: Mutex::new(Default::default()), built: AtomicUsize::new(0), dropped: AtomicUsize::new(0),
         total_frames: AtomicU64::new(0), keep_frames, delay_us, collect_llrs, k, build_delay_ms: AtomicU64::new(0) })
 }
 
